@@ -15,6 +15,16 @@ type Reader struct {
 	Hook func(call int, p []byte)
 	call int
 	N    int64
+	// MaxChunk > 0: a Read returns at most MaxChunk bytes (a short read without error, which the io.Reader
+	// contract allows: e.g. a bufio.Reader over the system's randomness source does it)
+	MaxChunk int
+}
+
+// NewChunked creates a reader for a seed that returns at most max bytes per Read (max <= 0: no limit).
+func NewChunked(seed uint64, max int) *Reader {
+	r := New(seed)
+	r.MaxChunk = max
+	return r
 }
 
 // New creates a reader for a seed.
@@ -31,6 +41,9 @@ func New(seed uint64) *Reader {
 }
 
 func (r *Reader) Read(p []byte) (int, error) {
+	if r.MaxChunk > 0 && len(p) > r.MaxChunk {
+		p = p[:r.MaxChunk]
+	}
 	for i := range p {
 		p[i] = 0
 	}
